@@ -1343,6 +1343,16 @@ def run_c01(ctx):
     seqs = io_sequence_cases(ctx, 60 if q else 3000) + graph_sequence_cases(ctx, 30 if q else 2000) + \
         loop_program_cases(ctx, 20 if q else 1000) + list_roundtrip_cases(ctx, 40 if q else 2000) + vector_sequence_cases(ctx, 30 if q else 1500)
     run_events(ctx, "family_sequences", seqs)
+    # EXEC.CMD on commands the operating system cannot start (unknown name, NUL byte, empty arguments): the
+    # instruction sleeps one second per call, hence a handful of cases
+    cs = []
+    for k, (names, n) in enumerate([(["no-such-command-pv"], 0), (["arg", "no-such-command-pv"], 1), (["a\u0000b"], 0), (["x", "y", "no-such-command-pv", "below"], 2),
+                                     (["no-such-command-pv"], 1), (["\u00e9\u00e9"], 0)]):
+        s = gen.empty_state()
+        s["name"] = names; s["int"] = [n, 5]
+        s["exec"] = [ins("EXEC.CMD"), {"k": "int", "v": 1}]
+        cs.append({"id": "execcmd-%d" % k, "pre": s, "acts": [{"a": "steps", "k": 2}]})
+    run_events(ctx, "exec_cmd_not_startable", cs, env={"PV_CMD_NOTFOUND": "1"})
     # sizes: long vectors (sort / block thresholds) and long multi-byte names (byte-length thresholds)
     run_events(ctx, "long_vectors", long_vector_cases(ctx, 2 if q else 40, ctx.seed + 31))
     run_events(ctx, "multibyte_names", long_name_cases(ctx, q))
